@@ -1071,6 +1071,334 @@ def check_symmath(run, mods, rnd, wd, hist, distinct):
     return files, shards, failures, stats
 
 
+# ---- simplify_math_iterators: sums handed to sympy (translation validation) ---------------------------
+# a case: {"elt": text, "gens": [(target, kind, [arg texts])], "form": "list" | "gen"}; kind: range | tuple | list | set
+SM_BOX = (-3, 6)
+
+
+def sm_source(case) -> str:
+    gens = []
+    for v, kind, args in case["gens"]:
+        it = {"range": "range({})", "tuple": "({},)", "list": "[{}]", "set": "{{{}}}"}[kind].format(", ".join(args))
+        gens.append(f"for {v} in {it}")
+    body = f"{case['elt']} {' '.join(gens)}"
+    return f"y = sum([{body}])\n" if case["form"] == "list" else f"y = sum({body})\n"
+
+
+def ax_of_ast(n, vm):
+    """Python arithmetic -> aexp term; vm: name -> variable index (extended on the fly)"""
+    if isinstance(n, ast.Constant) and type(n.value) is int:
+        return ("num", n.value)
+    if isinstance(n, ast.Name):
+        return ("var", vm.setdefault(n.id, len(vm)))
+    if isinstance(n, ast.UnaryOp) and isinstance(n.op, ast.USub):
+        return ("neg", ax_of_ast(n.operand, vm))
+    if isinstance(n, ast.UnaryOp) and isinstance(n.op, ast.UAdd):
+        return ax_of_ast(n.operand, vm)
+    if isinstance(n, ast.BinOp):
+        k = {ast.Add: "add", ast.Sub: "sub", ast.Mult: "mul", ast.Div: "div"}.get(type(n.op))
+        if k:
+            return (k, ax_of_ast(n.left, vm), ax_of_ast(n.right, vm))
+        if isinstance(n.op, ast.Pow) and isinstance(n.right, ast.Constant) and type(n.right.value) is int \
+                and 0 <= n.right.value <= 12:
+            return ("pow", ax_of_ast(n.left, vm), n.right.value)
+    raise ValueError("outside the arithmetic language: " + ast.dump(n))
+
+
+def ax_text(s, vm):
+    return ax_of_ast(ast.parse(s, mode="eval").body, vm)
+
+
+def ax_coq(a) -> str:
+    k = a[0]
+    if k == "num":
+        return f"(ANum {gz(a[1])})"
+    if k == "var":
+        return f"(AVar {a[1]})"
+    if k == "neg":
+        return f"(ANeg {ax_coq(a[1])})"
+    if k == "pow":
+        return f"(APow {ax_coq(a[1])} {a[2]})"
+    return f"({ {'add': 'AAdd', 'sub': 'ASub', 'mul': 'AMul', 'div': 'ADiv'}[k] } {ax_coq(a[1])} {ax_coq(a[2])})"
+
+
+def ax_vars(a, acc=None):
+    acc = set() if acc is None else acc
+    if a[0] == "var":
+        acc.add(a[1])
+    elif a[0] != "num":
+        for x in a[1:]:
+            if isinstance(x, tuple):
+                ax_vars(x, acc)
+    return acc
+
+
+def sm_terms(case):
+    """(gens as terms, elt term, vm, free variable indices); ValueError outside the language"""
+    vm = {}
+    gens = []
+    for v, kind, args in case["gens"]:
+        # bounds are evaluated before the target is bound: translate them first
+        if kind == "range":
+            a = [ax_text(x, vm) for x in args]
+            lo, hi, st = (("num", 0), a[0], ("num", 1)) if len(a) == 1 else (a[0], a[1], ("num", 1)) if len(a) == 2 \
+                else tuple(a)
+            gens.append(("range", vm.setdefault(v, len(vm)), lo, hi, st))
+        else:
+            es = [ax_text(x, vm) for x in args]
+            gens.append(("list", vm.setdefault(v, len(vm)), es, kind == "set"))
+    elt = ax_text(case["elt"], vm)
+    targets = {g[1] for g in gens}
+    return gens, elt, vm, sorted(set(vm.values()) - targets)
+
+
+def sm_gen_coq(g) -> str:
+    if g[0] == "range":
+        return f"(GRange {g[1]} {ax_coq(g[2])} {ax_coq(g[3])} {ax_coq(g[4])})"
+    return f"(GList {g[1]} {glist(g[2], ax_coq)} {gbool(g[3])})"
+
+
+class _Frac(ast.NodeTransformer):
+    """evaluate an emitted closed form exactly: every int literal becomes a Fraction"""
+    def visit_Constant(self, n):
+        if type(n.value) is int:
+            return ast.Call(func=ast.Name(id="_F", ctx=ast.Load()), args=[n], keywords=[])
+        return n
+
+
+def sm_exact(expr_text: str, env):
+    import fractions
+    tree = ast.fix_missing_locations(_Frac().visit(ast.parse(expr_text, mode="eval")))
+    return eval(compile(tree, "<out>", "eval"), {"_F": fractions.Fraction, "__builtins__": {}}, dict(env))
+
+
+def sm_reversed(case, env) -> bool:
+    """does some range that is iterated have its bounds the wrong way round under env (F17-1 / F17-12)?"""
+    def go(k, env):
+        if k == len(case["gens"]):
+            return False
+        v, kind, args = case["gens"][k]
+        vals = [eval(a, {"__builtins__": {}}, dict(env)) for a in args]
+        if kind == "range":
+            lo, hi, st = (0, vals[0], 1) if len(vals) == 1 else (vals[0], vals[1], 1) if len(vals) == 2 else vals
+            if (st > 0 and hi < lo) or (st < 0 and hi > lo):
+                return True
+            it = range(lo, hi, st)
+        else:
+            it = vals
+        return any(go(k + 1, {**env, v: z}) for z in it)
+    return go(0, env)
+
+
+def sm_oracle(case, source, new, fv_names):
+    """CPython before/after on the box: (None | problem text, failing env, reversed?)"""
+    out_text = new[len("y = "):].strip()
+    lo, hi = SM_BOX if len(fv_names) <= 2 else (-2, 3)
+    first_rev = None
+    for vals in itertools.product(range(lo, hi + 1), repeat=len(fv_names)):
+        env = dict(zip(fv_names, vals))
+        try:
+            before = eval(source[len("y = "):], {"sum": sum, "range": range}, dict(env))
+        except Exception:  # noqa   (the original raises: nothing to preserve)
+            continue
+        try:
+            after = sm_exact(out_text, env)
+        except Exception as e:  # noqa
+            return f"the output raises {type(e).__name__}: {e}", env, False
+        if after != before:
+            rev = sm_reversed(case, env)
+            if not rev:
+                return f"value {before!r} became {after!r}", env, False
+            first_rev = first_rev or (f"value {before!r} became {after!r}", env, True)
+    return first_rev or (None, None, False)
+
+
+SM_ELTS = ["i", "i * i", "i ** 2 + 3 * i - 2", "2 * i + 1", "i ** 3", "1", "-i", "x * i", "i * (i - 1)", "(i + 1) ** 2",
+           "i ** 4 - i"]
+SM_SYM_RANGES = [["n"], ["m", "n"], ["2", "n"], ["n", "7"], ["n + 1"], ["-n", "n"], ["m", "n", "1"], ["0", "n", "2"],
+                 ["n", "2 * n"], ["m + 1", "n"], ["1", "n"]]
+
+
+def sm_cases(tier, rnd):
+    lit = [[str(b)] for b in range(-2, 6)] + [[str(a), str(b)] for a in range(-2, 5) for b in range(-2, 6)]
+    lit += [[str(a), str(b), str(s)] for a in (-1, 0, 2) for b in (0, 3, 6, 7) for s in (2, 3, -1, -2)]
+    cases = []
+    for k, r in enumerate(lit):
+        elts = SM_ELTS if tier != "quick" else [SM_ELTS[k % len(SM_ELTS)]]
+        for e in dict.fromkeys(elts):
+            cases.append({"elt": e, "gens": [("i", "range", r)], "form": ("list", "gen")[k % 2]})
+    for k, r in enumerate(SM_SYM_RANGES):
+        for j, e in enumerate(SM_ELTS):
+            if tier != "quick" or (j + k) % 2 == 0:
+                cases.append({"elt": e, "gens": [("i", "range", r)], "form": "list"})
+    nested = [
+        ("i * j", [("i", "range", ["3"]), ("j", "range", ["4"])]), ("i * j", [("i", "range", ["n"]), ("j", "range", ["i"])]),
+        ("i + j", [("i", "range", ["4"]), ("j", "range", ["i", "5"])]), ("1", [("i", "range", ["n"]), ("j", "range", ["i", "n"])]),
+        ("i", [("i", "range", ["3"]), ("i", "range", ["2"])]), ("i * j", [("i", "range", ["4"]), ("j", "range", ["i"])]),
+        ("j", [("i", "range", ["3"]), ("j", "tuple", ["i", "2"])]), ("i * j - j", [("i", "range", ["1", "n"]), ("j", "range", ["m"])]),
+        ("x * a ** 3 - a * z ** 2", [("a", "range", ["10", "19", "2"]), ("z", "range", ["3", "7"]), ("x", "range", ["1", "9", "5"])]),
+        ("x * a ** 3 - a * z ** 2", [("a", "range", ["10", "19", "2"]), ("z", "set", ["3", "4", "5", "6", "6", "5"]), ("x", "range", ["1", "3"])]),
+        ("a * a", [("a", "tuple", ["1", "2", "2"])]), ("a * a", [("a", "set", ["1", "2", "2"])]), ("a * a", [("a", "list", ["1", "2", "2"])]),
+        ("a", [("a", "list", ["1", "2", "n"])]), ("a * a", [("a", "tuple", ["n", "n"])]), ("a * a", [("a", "set", ["n", "n", "3"])]),
+        ("a + b + c + d", [("_", "range", ["k", "w"])]), ("i * j", [("i", "range", ["2", "n"]), ("j", "range", ["0", "i", "2"])]),
+        ("i + j", [("i", "range", ["n"]), ("j", "range", ["m"])]), ("i - j", [("i", "range", ["n", "m"]), ("j", "tuple", ["1", "-1"])]),
+    ]
+    for e, g in nested:
+        cases.append({"elt": e, "gens": g, "form": "list"})
+        cases.append({"elt": e, "gens": g, "form": "gen"})
+    for _ in range(30 if tier == "quick" else 1500):
+        deg = rnd.randint(0, 3)
+        e = " + ".join(f"{rnd.randint(-3, 4)} * i ** {d}" for d in range(deg + 1))
+        r = rnd.choice(SM_SYM_RANGES[:6] + [[str(rnd.randint(-3, 3)), str(rnd.randint(-3, 8))],
+                                            [str(rnd.randint(-3, 3)), str(rnd.randint(-3, 8)), str(rnd.choice([1, 2, 3, -1, -2]))]])
+        cases.append({"elt": e, "gens": [("i", "range", r)], "form": rnd.choice(["list", "gen"])})
+    return cases
+
+
+# inputs the pre-repair rule got wrong; they must pass from now on (fixed: F17-13..F17-18)
+SM_WITNESSES = [
+    ("F17-13", "y = sum(range(0, 10, 2))\n"), ("F17-14", "y = sum([i for i in range(0, 9, 3)])\n"),
+    ("F17-14", "y = sum([i + 1 for i in range(10, 0, -1)])\n"), ("F17-14", "n = 7\ny = sum([i for i in range(0, n, 2)])\n"),
+    ("F17-15", "n = 4\ny = sum([i * j for i in range(n) for j in range(i)])\n"),
+    ("F17-15", "y = sum([i for i in range(3) for i in range(2)])\n"),
+    ("F17-16", "I = 3\ny = sum([I * I * i for i in range(3)])\n"), ("F17-16", "S = 2\ny = sum([S * i for i in range(3)])\n"),
+    ("F17-16", "y = sum([i ^ 1 for i in range(3)])\n"), ("F17-16", "n = 5\ny = sum([i // 2 for i in range(n)])\n"),
+    ("F17-16", "a = 7\ny = sum(range(a % 5))\n"), ("F17-17", "y = sum([1 << 2, 3])\n"),
+    ("F17-18", "y = sum(range(5, 3))\n"), ("F17-18", "y = sum([i ** 3 for i in range(5, 2)])\n"),
+]
+
+# structural predicates of the known findings of this property (keyed by sig=)
+C17_SIGS = {"sum_reversed_range": lambda item: bool(item.get("reversed_range"))}
+
+_SM_MODS = None
+
+
+def _sm_eval(jobs):
+    """worker: the real rule (text result) on each case + the CPython oracle"""
+    rule = _SM_MODS["symbolic_math"].simplify_math_iterators
+    out = []
+    for case in jobs:
+        source = sm_source(case)
+        try:
+            with common.quiet():
+                new = rule(source)
+        except Exception as e:  # noqa
+            out.append((case, source, None, f"crash {type(e).__name__}: {e}", None, False))
+            continue
+        if new == source:
+            out.append((case, source, new, None, None, False))
+            continue
+        names = sorted({n.id for n in ast.walk(ast.parse(source)) if isinstance(n, ast.Name)}
+                       - {"sum", "range", "y"} - {g[0] for g in case["gens"]})
+        try:
+            pr, env, rev = sm_oracle(case, source, new, names)
+        except Exception as e:  # noqa
+            pr, env, rev = f"oracle crashed: {type(e).__name__}: {e}", None, False
+        out.append((case, source, new, pr, env, rev))
+    return out
+
+
+def check_sums(run, mods, rnd, wd, hist, distinct):
+    """every closed form the real rule emits for a sum over ranges / displays is validated in Coq against the
+    reference semantics comp_sum on a box, proved for all lo <= hi where the telescoping theorem applies, and
+    compared with CPython"""
+    global _SM_MODS
+    _SM_MODS = mods
+    cases = sm_cases(run.tier, rnd)
+    nw = 4 if run.tier == "quick" else 8
+    import multiprocessing
+    size = max(20, len(cases) // (nw * 4))
+    with multiprocessing.get_context("fork").Pool(nw) as pool:
+        parts = pool.map(_sm_eval, [cases[k:k + size] for k in range(0, len(cases), size)])
+    results = [r for part in parts for r in part]
+    failures, known, coq_cases, proofs, semc = [], [], [], [], []
+    for case, source, new, pr, env, rev in results:
+        fired = new is not None and new != source
+        hist["sums:" + ("crash" if new is None else "fired" if fired else "none")] += 1
+        if new is None:
+            failures.append(("simplify_math_iterators", {"source": source, "output": None, "problem": pr}))
+            continue
+        try:
+            gens, elt, vm, fv = sm_terms(case)
+        except ValueError:
+            gens = None
+        if gens is not None and not fv:
+            # reference semantics vs CPython (closed cases): Python's own sum
+            try:
+                v = eval(source[len("y = "):], {"sum": sum, "range": range})
+                if isinstance(v, int):
+                    semc.append((gens, elt, [], (v, 1), source))
+            except Exception:  # noqa
+                pass
+        if not fired:
+            continue
+        distinct.add(source)
+        if pr:
+            item = {"source": source, "output": new, "problem": pr, "valuation": env, "reversed_range": rev}
+            (known if rev else failures).append(("simplify_math_iterators", item))
+        if gens is None:
+            hist["sums:outside-model"] += 1
+            continue
+        try:
+            vm2 = dict(vm)
+            out = ax_text(new[len("y = "):].strip(), vm2)
+            if len(vm2) != len(vm):
+                raise ValueError("the output mentions a new name")
+        except (ValueError, SyntaxError):
+            hist["sums:output-outside-model"] += 1
+            continue
+        box = SM_BOX if len(fv) <= 2 else (-2, 3)
+        coq_cases.append((gens, elt, out, fv, box, source, new, pr, rev))
+        # the telescoping proof: one range with step 1 whose upper bound is a free variable that occurs
+        # nowhere else
+        if len(gens) == 1 and gens[0][0] == "range" and gens[0][4] == ("num", 1) and gens[0][3][0] == "var":
+            nv = gens[0][3][1]
+            if nv in fv and nv not in ax_vars(gens[0][2]) and nv not in ax_vars(elt):
+                proofs.append((gens[0], elt, out, nv, source, new))
+    files, shards = [], []
+    body = ";\n ".join(f"({glist(g, sm_gen_coq)}, {ax_coq(e)}, {ax_coq(o)}, {glist(fv, lambda i: str(i) + '%nat')}, "
+                       f"({gz(box[0])}, {gz(box[1])}))" for (g, e, o, fv, box, *_r) in coq_cases)
+    pcode = wd / "sumcodes.v"
+    pcode.write_text("From Coq Require Import List ZArith QArith.\nImport ListNotations.\nOpen Scope Z_scope.\n"
+                     "Require Import Pyrefact.Base Pyrefact.SumPolyModel.\n"
+                     f"Definition cases : list sum_case := [\n {body}\n].\n"
+                     "Eval vm_compute in (map sum_case_code cases).\n")
+    for k in range(0, len(semc), 400):
+        shard = semc[k:k + 400]
+        body = ";\n ".join(f"({glist(g, sm_gen_coq)}, {ax_coq(e)}, [], ({gz(v[0])}, {v[1]}%positive))" for (g, e, _a, v, _s) in shard)
+        p = wd / f"sumsem_{k // 400}.v"
+        p.write_text("From Coq Require Import List ZArith QArith.\nImport ListNotations.\nOpen Scope Z_scope.\n"
+                     "Require Import Pyrefact.Base Pyrefact.SumPolyModel.\n"
+                     f"Definition cases : list (list gen * aexp * list (nat * Z) * (Z * positive)) := [\n {body}\n].\n"
+                     "Eval vm_compute in (bad_idx comp_sum_case_ok cases).\n")
+        files.append(p); shards.append([("comp_sum", s[4], s[3]) for s in shard])
+    pfiles = []
+    PSH = 12
+    for k in range(0, len(proofs), PSH):
+        goals = []
+        for j, (g, e, o, nv, _s, _n) in enumerate(proofs[k:k + PSH], start=k):
+            x, lo = g[1], ax_coq(g[2])
+            goals.append(
+                f"Goal True.\n  tryif (assert (forall (rho : nat -> Z) (a : Z), zeval rho {lo} = Some a -> (a <= rho {nv}%nat)%Z ->\n"
+                f"    exists v, comp_sum [GRange {x} {lo} (AVar {nv}) (ANum 1)] rho {ax_coq(e)} = Some v /\\ (v == aeval rho {ax_coq(o)})%Q) by\n"
+                f"   (intros rho a Ha H; cbn [zeval option_map] in Ha; injection Ha as <-;\n"
+                f"    eapply (closed_form_valid {x} {lo} (AVar {nv}) _ _ rho _ (rho {nv}%nat) (fun k => aeval (upd rho {nv} k) {ax_coq(o)}));\n"
+                f"    [ reflexivity | reflexivity | exact H\n"
+                f"    | intros k; cbn [aeval qpow upd Nat.eqb]; rewrite ?inject_Z_plus, ?inject_Z_mult, ?inject_Z_opp; field\n"
+                f"    | cbn [aeval qpow upd Nat.eqb]; rewrite ?inject_Z_plus, ?inject_Z_mult, ?inject_Z_opp; field\n"
+                f"    | cbv beta; rewrite (upd_same rho {nv}); reflexivity ]))\n"
+                f"  then idtac \"SUMPROOF {j} ACCEPT\" else idtac \"SUMPROOF {j} REJECT\".\n  exact I.\nQed.\n")
+        p = wd / f"sumproof_{k // PSH}.v"
+        p.write_text("From Coq Require Import List ZArith QArith Field.\nImport ListNotations.\nOpen Scope Z_scope.\n"
+                     "Require Import Pyrefact.Base Pyrefact.SumPolyModel Pyrefact.SumPolyProofs.\n" + "\n".join(goals))
+        pfiles.append(p)
+    stats = {"cases": len(cases), "fired": sum(1 for r in results if r[2] is not None and r[2] != r[1]),
+             "closed_forms_checked_in_coq": len(coq_cases), "comp_sum_vs_cpython": len(semc),
+             "telescoping_instances": len(proofs),
+             "samples": [sm_source(cases[5]), sm_source(cases[-70])]}
+    return files, shards, failures, known, stats, (pcode, coq_cases, pfiles, proofs)
+
+
 def program_property_fails(prog: str, new: str) -> str | None:
     """f(n, m, p, y) before/after format_code: same value (same order) for every n in the box"""
     if new == prog:
@@ -1192,13 +1520,13 @@ def check(run: common.Run):
 
     # ---- sum(range) closed forms
     sums = sum_cases(mods)
-    body = ";\n ".join(f"({gz(s['a'])}, {gz(s['b'])}, {gz(int(2 * s['value']))})" for s in sums
-                       if isinstance(s["value"], (int, float)) and float(2 * s["value"]).is_integer())
+    body = ";\n ".join(f"({gbool(s['form'] in ('two', 'one'))}, {gz(s['a'])}, {gz(s['b'])}, {gz(int(2 * s['value']))})"
+                       for s in sums if isinstance(s["value"], (int, float)) and float(2 * s["value"]).is_integer())
     p = wd / "sums.v"
     p.write_text("From Coq Require Import List ZArith.\nImport ListNotations.\nOpen Scope Z_scope.\n"
                  "Require Import Pyrefact.Base Pyrefact.Ops Pyrefact.BoundModel Pyrefact.BoolRwModel.\n"
-                 f"Definition cases : list (Z * Z * Z) := [\n {body}\n].\n"
-                 "Eval vm_compute in (bad_idx (fun c => let '(a, b, v) := c in sum_range_closed2 a b =? v) cases).\n")
+                 f"Definition cases : list (bool * Z * Z * Z) := [\n {body}\n].\n"
+                 "Eval vm_compute in (bad_idx (fun c => let '(lit, a, b, v) := c in sum_range_out2 lit a b =? v) cases).\n")
     files.append(p)
     shards.append([("sum", s) for s in sums if isinstance(s["value"], (int, float)) and float(2 * s["value"]).is_integer()])
     sum_unrepresentable = [s for s in sums if not (isinstance(s["value"], (int, float)) and float(2 * s["value"]).is_integer())]
@@ -1215,8 +1543,39 @@ def check(run: common.Run):
     sstats["python_wall_s"] = round(time.time() - t_sym, 1)
     files += sfiles; shards += sshards
 
-    results = common.run_case_files(files)
+    # ---- simplify_math_iterators: sums over ranges / displays computed by sympy
+    t_sm = time.time()
+    mfiles, mshards, mfailures, mknown, mstats, (pcode, coq_cases, pfiles, proofs) = check_sums(run, mods, rnd, wd, hist, distinct)
+    mstats["python_wall_s"] = round(time.time() - t_sm, 1)
+    files += mfiles; shards += mshards
+
+    results = common.run_case_files(files + [pcode] + pfiles)
     disagreements = []
+    # verdict codes of the emitted closed forms (0 equal on the box, 1 differs only where a range is reversed,
+    # 2 differs elsewhere, 3 outside the model)
+    rc, out = results[pcode]
+    codes = common.parse_nat_list(out) if rc == 0 else None
+    if codes is None or len(codes) != len(coq_cases):
+        disagreements.append(("eval-failed", pcode.name, out[-1500:]))
+    else:
+        for code, (g, e, o, fv, box, source, new, pr, rev) in zip(codes, coq_cases):
+            hist[f"sums:coq-code-{code}"] += 1
+            if (code == 2 and not (pr and not rev)) or (code == 1 and not pr) or (code == 0 and pr):
+                disagreements.append(("sum-case", f"Coq verdict {code}", {"source": source, "output": new,
+                                                                         "cpython": pr, "reversed": rev}))
+    accepted, rejected = 0, []
+    for p in pfiles:
+        rc, out = results[p]
+        if rc != 0:
+            disagreements.append(("eval-failed", p.name, out[-1500:]))
+            continue
+        for j, verdict in re.findall(r"SUMPROOF (\d+) (ACCEPT|REJECT)", out):
+            if verdict == "ACCEPT":
+                accepted += 1
+            else:
+                rejected.append(proofs[int(j)][4].strip() + " -> " + proofs[int(j)][5].strip())
+    mstats["telescoping_proved_for_all_lo_le_hi"] = accepted
+    mstats["telescoping_not_proved"] = rejected[:10]
     for p, shard in zip(files, shards):
         rc, out = results[p]
         idx = common.parse_nat_list(out) if rc == 0 else None
@@ -1247,7 +1606,7 @@ def check(run: common.Run):
             if pr:
                 failures.append(("remove_redundant_boolop_values", {"source": src, "problem": pr}))
     sum_viol = [s for s in sums if s["value"] != s["python"]]
-    failures += rfailures + sfailures
+    failures += rfailures + sfailures + mfailures
 
     # ---- known findings
     from . import findings
@@ -1265,6 +1624,19 @@ def check(run: common.Run):
                                         f"{hits[0]['output'].strip()} = {hits[0]['value']!r}, python {hits[0]['python']}]")
             else:
                 common.log(f"note: known finding {f.id} no longer reproduces")
+
+    # sums computed by sympy: a failing valuation is suppressed only when a range is reversed there (sig)
+    for f in kf:
+        if f.kind == "finding" and f.fields.get("site") == "symbolic_math._integrate_over":
+            pred = C17_SIGS.get(f.fields.get("sig", ""))
+            hits = [it for _, it in mknown if pred and pred(it)]
+            mknown = [(s_, it) for s_, it in mknown if not (pred and pred(it))]
+            if hits:
+                run.known_finding(f.id, f"{f.text} [{len(hits)} instances, e.g. {hits[0]['source'].strip()} -> "
+                                        f"{hits[0]['output'].strip()}: {hits[0]['problem']} at {hits[0]['valuation']}]")
+            else:
+                common.log(f"note: known finding {f.id} no longer reproduces")
+    failures += mknown          # not covered by a listed finding
 
     # ---- verdicts
     for site, pf in failures[:5]:
@@ -1302,10 +1674,10 @@ def check(run: common.Run):
               "2-argument forms); seeded random 1-3 `if`s of nested and-trees. Non-trivial = the rule "
               "yields a rewrite; distinct by source text."),
         samples=[items[0][3], items[n_pairs + 3][3], items[-1][3], c_text(nitems[-1][0]), ritems[-1][3],
-                 sums[5]["source"]] + rstats.pop("samples") + sstats.pop("samples"),
+                 sums[5]["source"]] + rstats.pop("samples") + sstats.pop("samples") + mstats.pop("samples"),
         exhaustive=False, exhaustive_pairs=n_pairs, histogram=dict(hist),
         correspondence_disagreements=len(disagreements), property_oracle_failures=len(failures),
-        sum_cases_outside_model=len(sum_unrepresentable), constrained_range=rstats, symmath=sstats,
+        sum_cases_outside_model=len(sum_unrepresentable), constrained_range=rstats, symmath=sstats, sums=mstats,
         unmodelled=["symbolic_math.simplify_boolean_expressions_symmath (sympy)", "symbolic_math._integrate_over (sympy)",
                     "simplify_constrained_range: the template walk that selects comprehensions (single generator, "
                     "Name target, range call without keywords) and the rewrite machinery that applies the yields "
